@@ -103,6 +103,8 @@ type simBase struct {
 	log  *EventLog
 }
 
+func (b *simBase) base() *simBase { return b }
+
 func (b *simBase) call(m string) {
 	if b.log != nil {
 		b.log.Add("item#" + strconv.Itoa(b.id) + "." + m)
